@@ -72,6 +72,29 @@ theorem list_numden_at_zero [DecidableEq F] (L : List F) (hL : L.Nodup) (p : F[X
   rw [mul_assoc, prod_div_eq]
   simp
 
+/-- the interpolation polynomial itself, list form (what `RecoverPriPoly` assembles):
+`Σ_a C(p(a) · Π_{b≠a} (a-b)⁻¹) · Π_{b≠a} (X - b) = p` -/
+theorem list_interpolate [DecidableEq F] (L : List F) (hL : L.Nodup) (p : F[X])
+    (hdeg : p.degree < L.length) :
+    (L.map fun a => C (p.eval a * ((L.filter (· ≠ a)).map (fun b => (a - b)⁻¹)).prod)
+        * ((L.filter (· ≠ a)).map (fun b => X - C b)).prod).sum = p := by
+  have hcard : L.toFinset.card = L.length := List.toFinset_card_of_nodup hL
+  have h := Lagrange.eq_interpolate_of_eval_eq (s := L.toFinset) (v := id)
+    (r := fun a => p.eval a) (Set.injOn_id _) (by rw [hcard]; exact hdeg) (fun _ _ => rfl)
+  conv_rhs => rw [h]
+  rw [Lagrange.interpolate_apply, List.sum_toFinset _ hL]
+  congr 1
+  refine List.map_congr_left fun a _ => ?_
+  have hf : (L.filter (· ≠ a)).Nodup := hL.filter _
+  have hs : L.toFinset.erase a = (L.filter (· ≠ a)).toFinset := by
+    rw [List.toFinset_filter]; ext b; simp [Finset.mem_erase, and_comm]
+  rw [Lagrange.basis, hs, List.prod_toFinset _ hf]
+  simp only [Lagrange.basisDivisor, id]
+  rw [C_mul, mul_assoc]
+  congr 1
+  rw [map_list_prod, List.map_map, ← List.prod_map_mul]
+  rfl
+
 variable {G : Type*} [AddCommGroup G] [Module F G]
 
 theorem sum_smul_const {α : Type*} (l : List α) (c : α → F) (b : G) :
